@@ -9,10 +9,10 @@
    and spy middleware) and through parse_url / normalize_url / validate_url.                                  *)
 EXTENDS Naturals, FiniteSets, TLC
 Schemes   == {"gemini", "GEMINI", "http", "titan", "none"}
-UserInfos == {"none", "user", "userpw", "pwonly", "empty"}
+UserInfos == {"none", "user", "userpw", "pwonly", "empty", "colononly"}      \* colononly: ":@" - user-info that consists of the separator alone
 Hosts     == {"reg", "REG", "ipv4", "v6", "v6zone", "missing", "v6bare", "v6junk"}     \* v6junk: characters around the brackets ("junk[::1]junk")
 Ports     == {"absent", "emptycolon", "1965", "0", "65535", "65536", "abc", "7070"}
-PathKs    == {"empty", "root", "plain", "pct", "params", "dslash", "dots", "ctl"}      \* ctl: a raw TAB, LF, CR, space, NUL or DEL inside
+PathKs    == {"empty", "root", "plain", "pct", "params", "dslash", "dots", "ctl"}      \* ctl: a raw TAB, LF or CR inside (what the URL parser would delete silently)
 Queries   == {"absent", "emptyq", "plain", "qmark"}
 Frags     == {"absent", "frag", "emptyfrag"}
 Lens      == {"short", "max", "over"}        \* line + CRLF: well below / exactly 1024 / 1025 bytes
